@@ -139,3 +139,67 @@ def check_C01(ctx, replay=None):
     return finish(ctx, "model_checking", cov,
                   ["fsync is observed at the seglog Writer::sync hook right after File::sync_data returns",
                    "traces cover single-bucket runs (one writer thread); multi-bucket configurations are covered by C02/C16 replay"])
+
+
+def check_C20(ctx, replay=None):
+    live = run_tlc(ctx, "Durability", "MCDurabilityLive.cfg", workers=8, timeout=1500, tags=())
+    core.require_actions(live, ["Write", "Reply", "WriteFail", "Fsync", "Publish", "RollSync", "RollSwap"], "durability-live")
+    _tlc_must_hold(ctx, live, "c20:tlc-liveness")
+    binary = cargo_build(ctx, "h-store")
+    trace = ctx.path("timing-trace.ndjson")
+    hr = run_harness(ctx, binary, ["timing", trace], timeout=3000)
+    for v in hr.violations:
+        add_violation(ctx, v["key"], v["detail"], v["replay"])
+    accepted, nlines, tres, info = _trace_validate(ctx, trace, "c20")
+    if not accepted:
+        add_violation(ctx, "c20:trace-rejected", info, {"trace": info.get("trace"), "line": info.get("line")})
+    cov = {
+        "states": live.distinct, "transitions": live.generated, "traces_validated_against_impl": hr.stats.get("runs", 0),
+        "samples": hr.stats.get("samples", []),
+        "evaluations": hr.stats["evaluations"], "distinct_nontrivial": hr.stats["distinct_classes"],
+        "appends": hr.stats.get("appends"), "append_errors": hr.stats.get("append_errors"),
+        "max_append_ms": hr.stats.get("max_append_ms"), "deadline_ms": hr.stats.get("deadline_ms"),
+        "clients": hr.stats.get("clients"), "segments_created": hr.stats.get("segments_created"),
+        "trace_lines_validated": nlines, "trace_accepted": accepted,
+        "rule": "TLC checks EveryAppendCompletes (every reply is eventually acknowledged) on Durability.tla under weak fairness of "
+                "fsync/publish/reply/rollover steps, with liveness checking on and no state constraint (3 transactions, a rollover, a "
+                "failed write). Binding: concurrent clients issue valid, rejected, half-failing and oversized appends with payloads "
+                "that force a rollover every few transactions, for each sync configuration (interval x byte/batch/timer trigger x "
+                "compression); every call must return within the deadline and the hook trace of each run, ending with close+reopen, "
+                "must be accepted by TraceDurability.tla (which requires that no reply is left unacknowledged).",
+    }
+    return finish(ctx, "model_checking", cov,
+                  ["bounded time is decided as liveness under fairness in the specification and as a wall-clock deadline (5 s, far above "
+                   "any configured interval) on real runs",
+                   "sync_interval = Duration::MAX with unreachable byte/batch thresholds (a library-only configuration that never syncs "
+                   "by construction) is outside the domain"])
+
+
+def check_C05(ctx, replay=None):
+    from .p_topology import _tables
+    res = run_tlc(ctx, "Recovery", "Recovery.cfg" if ctx.quick() else "RecoveryT.cfg", workers=4, tags=("TABLE",), timeout=600)
+    _tlc_must_hold(ctx, res, "c05:tlc-invariant")
+    table, n = _tables(ctx, res)
+    binary = cargo_build(ctx, "h-store")
+    hr = run_harness(ctx, binary, ["crash", table], timeout=6000)
+    for v in hr.violations:
+        add_violation(ctx, v["key"], v["detail"], v["replay"])
+    cov = {
+        "evaluations": hr.stats["evaluations"], "distinct_nontrivial": hr.stats["distinct_classes"],
+        "rule": "Recovery.tla enumerates (history of 1-3 event transactions, number acknowledged, complete records of the "
+                "unacknowledged tail that reached the OS, torn?) and checks RecoversPrefix on the record model; each class is "
+                "expanded to crash images of a real data directory: the directory at the last acknowledgement plus the tail cut at "
+                "the record boundary, or at every byte inside the next record (quick: 22 positions per record), zeros beyond; each "
+                "image is opened with DatabaseBuilder::open, every read API is compared with the model after the transactions "
+                "Recovery!Recover keeps, then one more append must continue sequences and versions. A third of the groups have "
+                "sealed segments in front of the live one; compression alternates. evaluations = images opened; "
+                "distinct_nontrivial = (complete records, torn, kept) classes.",
+        "samples": hr.stats.get("samples", []),
+        "images": hr.stats.get("images"), "groups": hr.stats.get("groups"),
+        "scans": hr.stats.get("scans"), "events_compared": hr.stats.get("events_compared"),
+        "states": res.distinct, "transitions": res.generated, "table_rows": n,
+    }
+    return finish(ctx, "fault_enumeration", cov,
+                  ["a process crash keeps every byte that reached write(2): images are prefixes of the bytes the writer produced, "
+                   "the preallocated rest of the segment is zeros",
+                   "the open-segment index files are whatever was on disk at the last acknowledgement"])
